@@ -1,5 +1,5 @@
 """C12 JSONPath queries select exactly the addressed nodes - path/value pairing, shared compile route, slice bounds."""
-from .. import frontend as F, ast as A, cfg as C, util as U, guards as G
+from .. import frontend as F, ast as A, cfg as C, util as U, guards as G, inline as I
 from . import c05
 from .. import linear as L
 
@@ -235,6 +235,8 @@ def r12_6(chk, facts):
         if ev is None or ev.get('body') is None: continue
         chk.analysed(ev)
         pn = [p_['n'] for p_ in ev['params'][:2]]
+        # the body may be shared between the operator classes through a helper that receives the comparison (E11)
+        ev = I.expand(facts, ev, depth=2)
         g = C.CFG(ev['body'])
         site = U.site(ev, 'operator')
         problems = []
